@@ -466,6 +466,27 @@ def allocOf (E : Env) (slack : Nat) : Sch → Bytes → Nat
     | .error _ => 0
   | .ext n, bs => (E.ext n).alloc slack bs
 
+/-- how Go decides that a field is "empty" (and therefore absent from a presence bitmap) -/
+inductive ZeroKind where
+  | len     -- `len(x) != 0`: slices and byte strings
+  | never   -- `x != nil`: a pointer; the bit alone says present
+  | zero    -- `!x.IsZero()`: all-zero number(s)
+  deriving DecidableEq, Repr, Inhabited
+
+/-- all numeric leaves are zero (`Currency.IsZero`) -/
+def Val.allZero : Val → Bool
+  | .nat n => n == 0
+  | .pair a b => a.allZero && b.allZero
+  | .unit => true
+  | _ => false
+
+def isZeroVal : ZeroKind → Val → Bool
+  | .len, .list vs => vs.isEmpty
+  | .len, .bytes b => b.isEmpty
+  | .len, _ => false
+  | .never, _ => false
+  | .zero, v => v.allZero
+
 /-- default environment: no external models; allocation limit 2^47 (Go's `maxAlloc` on amd64) -/
 def Env.default : Env := { ext := fun _ => Codec.unsupported, lim := 140737488355328 }
 
